@@ -182,7 +182,7 @@ func cwInv(cw *CodeWriter) bool {
 // mapper's state. Options (PrettyPrint, IndentString, WriteSemicolons, the Mapper pointer) and the tree are not in it.
 //@ group cwFrame
 //@   requires [cw] cw != nil && cwInv(cw) && J(cw) && NoFusion(cw)
-//@   modifies cw.Builder, cw.pendings, cw.IndentLevel, cw.lastByte
+//@   modifies cw.Builder, cw.pendings, cw.IndentLevel, cw.lastByte, cw.semiOmitted
 //@   modifies cw.Mapper.generatedLine, cw.Mapper.generatedColumn, cw.Mapper.mappings, cw.Mapper.names, cw.Mapper.nameIndex[*]
 //@   ensures [cwinv@C06,C08] cwInv(cw)
 //@   ensures [J@C08] J(cw)
@@ -201,6 +201,7 @@ func cwInv(cw *CodeWriter) bool {
 //@   ensures [mechanism@C08] fullSeq(evOpt(len(s) > 0, evCall("(*CodeWriter).separateSigns")), evOpt(len(s) > 0 && cw.Mapper != nil, evCall("(*SourceMapper).AdvanceString"))) && implies(len(s) > 0 && cw.Mapper != nil, callArg[string]("(*SourceMapper).AdvanceString", 0, 1) == s)
 //@   ensures [pendings] eq(cw.pendings, old(cw.pendings)) && cw.IndentLevel == old(cw.IndentLevel)
 //@   ensures [no-mapping@C08] cw.Mapper == nil || sourcemap.NumMappings(cw.Mapper) == old(sourcemap.NumMappings(cw.Mapper))
+//@   ensures [written@C06] implies(len(s) > 0, !cw.semiOmitted) && implies(len(s) == 0, cw.semiOmitted == old(cw.semiOmitted))
 
 // separateSigns writes a space exactly when the next token would fuse with the last byte written.
 //@ func (cw *CodeWriter) separateSigns(next)
@@ -261,6 +262,7 @@ func cwInv(cw *CodeWriter) bool {
 //@   use cwFrame
 //@   ensures [mechanism@C06,C08] fullSeq(evCall("(*CodeWriter).flushPending"), evCall("(*CodeWriter).separateSigns"), evOpt(cw.Mapper != nil && r == '\n', evCall("(*SourceMapper).AdvanceLine")), evOpt(cw.Mapper != nil && r != '\n', evCall("(*SourceMapper).AdvanceColumn")))
 //@   ensures [column@C08] implies(cw.Mapper != nil && r != '\n', callArg[int]("(*SourceMapper).AdvanceColumn", 0, 1) == 1)
+//@   ensures [written@C06] !cw.semiOmitted
 //@   requires [ascii] 0 <= r && r < 128 && r != '\r'
 //@   ensures [flushed] len(cw.pendings) == 0 && cw.IndentLevel == old(cw.IndentLevel)
 //@   ensures [no-mapping@C08] cw.Mapper == nil || sourcemap.NumMappings(cw.Mapper) == old(sourcemap.NumMappings(cw.Mapper))
@@ -271,6 +273,17 @@ func cwInv(cw *CodeWriter) bool {
 //@   use cwFrame
 //@   ensures [semi@C06] ncalls("(*CodeWriter).WriteRune") == ite(!cw.PrettyPrint || cw.WriteSemicolons, 1, 0) && implies(ncalls("(*CodeWriter).WriteRune") == 1, callArg[rune]("(*CodeWriter).WriteRune", 0, 1) == ';')
 //@   ensures [nothing@C06] implies(cw.PrettyPrint && !cw.WriteSemicolons, eq(cw.Builder, old(cw.Builder)) && eq(cw.pendings, old(cw.pendings)))
+//@   ensures [indent] cw.IndentLevel == old(cw.IndentLevel)
+//@   ensures [no-mapping@C08] cw.Mapper == nil || sourcemap.NumMappings(cw.Mapper) == old(sourcemap.NumMappings(cw.Mapper))
+//@   ensures [omitted@C06] cw.semiOmitted == (cw.PrettyPrint && !cw.WriteSemicolons)
+
+// RequireSemi writes the semicolon that was just left out, and only then.
+//@ func (cw *CodeWriter) RequireSemi()
+//@   props C06 C08 C01 C11
+//@   use cwFrame
+//@   ensures [required@C06] ncalls("(*CodeWriter).WriteRune") == ite(old(cw.semiOmitted), 1, 0) && implies(old(cw.semiOmitted), callArg[rune]("(*CodeWriter).WriteRune", 0, 1) == ';')
+//@   ensures [nothing@C06] implies(!old(cw.semiOmitted), eq(cw.Builder, old(cw.Builder)) && eq(cw.pendings, old(cw.pendings)))
+//@   ensures [cleared@C06] !cw.semiOmitted
 //@   ensures [indent] cw.IndentLevel == old(cw.IndentLevel)
 //@   ensures [no-mapping@C08] cw.Mapper == nil || sourcemap.NumMappings(cw.Mapper) == old(sourcemap.NumMappings(cw.Mapper))
 
@@ -412,7 +425,7 @@ func slotPrecedence(e Expression) int     { return 0 }
 //@   props C01 C03 C06 C08 C15 C14 C11
 //@   use cwFrame writeTo
 //@   assumes [wf] !isNil(ifs.Condition) && !isNil(ifs.ThenBranch) && (ifs.ElseBranch == nil || !isNil(ifs.ElseBranch))
-//@   ensures [syntax] traceSeq(evLC(ifs.Token.LeadingComments), evMap(ifs.Token.Start), evStr("if"), evRune('('), evNode(ifs.Condition), evRune(')'), evNode(ifs.ThenBranch), evOpt(ifs.ElseBranch != nil, evStr(" else ")), evOpt(ifs.ElseBranch != nil, evNode(ifs.ElseBranch)))
+//@   ensures [syntax] traceSeq(evLC(ifs.Token.LeadingComments), evMap(ifs.Token.Start), evStr("if"), evRune('('), evNode(ifs.Condition), evRune(')'), evNode(ifs.ThenBranch), evOpt(ifs.ElseBranch != nil, evCall("(*CodeWriter).RequireSemi")), evOpt(ifs.ElseBranch != nil, evStr(" else ")), evOpt(ifs.ElseBranch != nil, evNode(ifs.ElseBranch)))
 
 //@ func (ws *WhileStatement) WriteTo(cw)
 //@   props C01 C03 C06 C08 C15 C14 C11
